@@ -68,6 +68,31 @@ pub fn blocking_mix(rng: &mut Rng, res: &[String], allow_throttle: bool) -> Rule
                 ..FlowSpec::reject(&nid("ft"), r, rng.range(1, 50) as f64, 1000)
             });
         }
+        if rng.chance(1, 6) {
+            // warm-up rule (its allowance moves with the traffic)
+            rules.flow.push(FlowSpec { calc: 1, warm_period: rng.range(1, 3) as u32, warm_cold: *rng.pick(&[0u32, 2, 3]), ..FlowSpec::reject(&nid("fw"), r, rng.range(3, 12) as f64, 0) });
+        }
+        if res.len() > 1 && rng.chance(1, 6) {
+            // a rule that limits this resource by the traffic of another one
+            let other = res.iter().find(|x| *x != r).unwrap().clone();
+            rules.flow.push(FlowSpec { relation: 1, ref_res: other, ..FlowSpec::reject(&nid("fa"), r, rng.range(0, 4) as f64, *rng.pick(&[0u32, 2000])) });
+        }
+        if allow_throttle && rng.chance(1, 8) {
+            rules.hotspot.push(HotspotSpec {
+                id: nid("ht"),
+                res: r.clone(),
+                metric: 1,
+                ctrl: 1,
+                index: 0,
+                key: String::new(),
+                threshold: rng.range(1, 20),
+                max_queue_ms: *rng.pick(&[0u64, 20, 200]),
+                burst: 0,
+                duration_s: 1,
+                capacity: 0,
+                specific: vec![],
+            });
+        }
         if rng.chance(1, 3) {
             rules.iso.push(IsoSpec { id: nid("i"), res: r.clone(), threshold: rng.range(1, 4) as u32 });
         }
